@@ -348,7 +348,8 @@ fn check_one(al: &Alphabet, hist: &[Arr], w: u32, var: Variant, rep: &Report, ag
             if a == b {
                 agree.fetch_add(1, Ordering::Relaxed);
             } else if disagree.fetch_add(1, Ordering::Relaxed) == 0 {
-                rep.warn(format!("reference model and implementation group differently on {} (not a verdict: only the property's invariants decide)", hist_json(hist, w, var)));
+                let h = hist_json(hist, w, var).to_string();
+                rep.warn(format!("reference model and implementation group differently on a history of {} arrivals, window {w} ms: {}{} (not a verdict: only the property's invariants decide)", hist.len(), &h[..h.len().min(300)], if h.len() > 300 { " ..." } else { "" }));
             }
         }
     }
